@@ -13,6 +13,8 @@ YEARS = ['1999', '2000', '2012', '1987', '2024', '1950']
 
 DYADIC = ['0.5', '0.25', '0.125', '0.0625', '0.03125']
 TINY = ['1e-200', '5e-324', '1e-300', '2.2250738585072014e-308', '1e-160', '0.0']
+# distinct doubles closer together than any sensible tolerance (1 ulp apart, or both far below 2**-52)
+CLOSE = ['0.30000000000000004', '0.3', '0.10000000000000002', '0.1', '0.09999999999999999', '3e-17', '2e-17', '1e-17']
 
 
 def _strictly_decreasing_probs(rng, n, mode):
@@ -22,6 +24,8 @@ def _strictly_decreasing_probs(rng, n, mode):
         pool = DYADIC
     elif mode == 'tiny':
         pool = DYADIC[:2] + TINY
+    elif mode == 'close':
+        pool = DYADIC[:1] + CLOSE
     elif mode == 'float':
         pool = None
     else:
@@ -79,14 +83,14 @@ def gen_terminal_list(rng, cat, length, max_groups, max_vals, mode):
 
 
 TYPE_POOL = [('A', 1), ('A', 2), ('A', 3), ('A', 4), ('D', 1), ('D', 2), ('D', 3), ('O', 1), ('O', 2),
-             ('K', 4), ('Y', 1), ('X', 1)]
+             ('K', 4), ('Y', 1), ('X', 1), ('A', 10), ('A', 12), ('D', 11)]
 
 
 def gen_ruleset(rng, max_structs=4, max_pos=4, max_groups=4, max_vals=3, mode=None, markov=None,
                 encoding='utf-8', omen=None, allow_dup_struct=True):
     """returns a spec for common.write_ruleset"""
     if mode is None:
-        mode = rng.choice(['dyadic', 'dyadic', 'float', 'tiny'])
+        mode = rng.choice(['dyadic', 'dyadic', 'float', 'tiny', 'close'])
     if markov is None:
         markov = rng.random() < 0.3
     nstruct = rng.randint(1, max_structs)
@@ -115,7 +119,7 @@ def gen_ruleset(rng, max_structs=4, max_pos=4, max_groups=4, max_vals=3, mode=No
     if mode == 'float':
         bps = [repr(rng.random()) for _ in structs]
     else:
-        pool = DYADIC if mode == 'dyadic' else DYADIC[:2] + TINY[:3]
+        pool = DYADIC if mode == 'dyadic' else (DYADIC[:2] + CLOSE[:5] if mode == 'close' else DYADIC[:2] + TINY[:3])
         bps = [rng.choice(pool) for _ in structs]
     grammar = [[s, p] for s, p in zip(structs, bps)]
     omen_prob = []
